@@ -1,6 +1,29 @@
 (* C18 model driver.  payload: ops separated by blanks, see prop.py.  Prints the same keys as
    harness.cpp after every operation, plus class= (input class of the case). *)
+(* The extracted functions recurse once per byte (List.app, split_lines, find_eq ...): for settings
+   files of a megabyte the driver re-runs itself with an unlimited stack.  Bytes are shared values
+   (one N per byte value) so that a 1 MB string is a list of 1 M cells, not 1 M numbers. *)
+let () =
+  if (try Sys.getenv "C18_BIGSTACK" with Not_found -> "") <> "1" then
+    exit (Sys.command (Printf.sprintf "ulimit -s unlimited 2>/dev/null || ulimit -s 1000000 2>/dev/null; C18_BIGSTACK=1 exec %s %s"
+                         (Filename.quote Sys.executable_name) (Filename.quote Sys.argv.(1))))
+let ntab = Array.init 256 n_of_int
+let bytes_of_hex (s : string) : n list =
+  if s = "-" then [] else begin
+    let l = ref [] in
+    for i = String.length s / 2 - 1 downto 0 do
+      l := ntab.(hexdigit s.[2*i] * 16 + hexdigit s.[2*i+1]) :: !l
+    done; !l end
+let hex_of_bytes (l : n list) : string =
+  if l = [] then "-" else begin
+    let b = Buffer.create 4096 in
+    let dg = "0123456789abcdef" in
+    List.iter (fun x -> let v = int_of_n x land 255 in Buffer.add_char b dg.[v lsr 4]; Buffer.add_char b dg.[v land 15]) l;
+    Buffer.contents b end
 let hx (s : n list) = hex_of_bytes s
+(* a store with a key or value of 1000 bytes or more: libstdc++ no longer issues one write per line,
+   so the per-call keys are printed under names the comparison ignores (both sides use this rule) *)
+let big (m : (n list * n list) list) = List.exists (fun (k, v) -> List.compare_length_with k 1000 >= 0 || List.compare_length_with v 1000 >= 0) m
 let dump (m : (n list * n list) list) : string =
   if m = [] then "-" else String.concat "," (List.map (fun (k, v) -> hx k ^ ":" ^ hx v) m)
 let file_s (f : n list option) = match f with None -> "!" | Some b -> hx b
@@ -20,6 +43,9 @@ let save_keys (n : string) (before : state) (after : state) : string =
   let atomic = crash_atomic_chk (restart before.disk) before.mem imgs in
   (* y: the settings file at the moment Synchronize() returns = after the complete script *)
   let at_return = match fs_run fs_step script before.disk with Some d -> file_s d.f_conf | None -> "?hazard" in
+  if big before.mem then
+    Printf.sprintf ";y%s=%s;f%s=%s;t%s=%s;a%s=%s" n at_return n (file_s after.disk.f_conf) n (file_s after.disk.f_tmp) n (bool01 atomic)
+  else
   Printf.sprintf ";y%s=%s;f%s=%s;t%s=%s;c%s=%s;i%s=%s;a%s=%s" n at_return n (file_s after.disk.f_conf) n (file_s after.disk.f_tmp)
     n (String.concat "" (List.map call_c script)) n (String.concat "|" (List.map image_s imgs))
     n (bool01 atomic)
@@ -68,6 +94,10 @@ let handle (payload : string) : string =
       if has_byte 0x23 v then cls "val-hash";
       if v = [] then cls "val-empty";
       if k = [] then cls "key-empty";
+      (let lk = List.length k and lv = List.length v in
+       let l = max lk lv in
+       if l >= 1000 then cls (if l < 4090 then "len<4090" else if l <= 4100 then "len-4090..4100" else if l < 8191 then "len<8191"
+                              else if l <= 8193 then "len-8191..8193" else if l <= 65536 then "len<=64k" else "len~1M"));
       if List.hd a = "M" then cls "multi";
       st := step !st (if List.hd a = "S" then OSet (k, v) else OSetMulti (k, v));
       emit ("s" ^ n ^ "=" ^ dump !st.mem)
